@@ -64,29 +64,37 @@ theorem rid_toList (c : RenderCtx) (j : Nat) :
     (c.rid j).toList = List.replicate (c.w - (toString (c.idOf j)).length) '0' ++ Nat.toDigits 10 (c.idOf j) := by
   simp only [RenderCtx.rid, padId, String.toList_append, String.toList_ofList, Nat.toString_eq_repr, Nat.toList_repr]
 
-theorem rid_idOk (c : RenderCtx) (j : Nat) : IdOk (c.rid j).toList := by
+/-- a rendered id is a string of digits … -/
+theorem rid_digits (c : RenderCtx) (j : Nat) : ∀ ch ∈ (c.rid j).toList, ch.isDigit = true := by
   rw [rid_toList]
-  refine ⟨?_, ?_⟩
-  · intro h
-    exact Nat.toDigits_ne_nil (List.append_eq_nil_iff.1 h).2
-  · intro ch hch
-    rcases List.mem_append.1 hch with h | h
-    · rw [(List.mem_replicate.1 h).2]; decide
-    · exact isIdChar_of_isDigit (Nat.isDigit_of_mem_toDigits (by decide) (by decide) h)
+  intro ch hch
+  rcases List.mem_append.1 hch with h | h
+  · rw [(List.mem_replicate.1 h).2]; decide
+  · exact Nat.isDigit_of_mem_toDigits (by decide) (by decide) h
+
+theorem rid_ne_nil (c : RenderCtx) (j : Nat) : (c.rid j).toList ≠ [] := by
+  rw [rid_toList]
+  intro h
+  exact Nat.toDigits_ne_nil (List.append_eq_nil_iff.1 h).2
+
+/-- … hence a numeral -/
+theorem rid_idOk (c : RenderCtx) (j : Nat) : IdOk (c.rid j).toList :=
+  idOk_of_digits (rid_ne_nil c j) (rid_digits c j)
 
 theorem cluster_toList (c : RenderCtx) (s : Nat) : (clusterName c s).toList = "cluster_".toList ++ (c.rid s).toList := by
   simp only [clusterName, String.toList_append]
 
+/-- a cluster name is an identifier -/
 theorem cluster_idOk (c : RenderCtx) (s : Nat) : IdOk (clusterName c s).toList := by
   rw [cluster_toList]
-  refine ⟨?_, ?_⟩
-  · intro h
-    exact (rid_idOk c s).1 (List.append_eq_nil_iff.1 h).2
-  · intro ch hch
-    rcases List.mem_append.1 hch with h | h
-    · have hk : ∀ ch ∈ "cluster_".toList, isIdChar ch = true := by decide
-      exact hk ch h
-    · exact (rid_idOk c s).2 ch h
+  apply idOk_of_ident
+  simp only [String.reduceToList, List.cons_append, List.nil_append, isIdentRun, Bool.and_eq_true, List.all_eq_true]
+  refine ⟨by decide, ?_⟩
+  intro ch hch
+  simp only [List.mem_cons] at hch
+  rcases hch with rfl | rfl | rfl | rfl | rfl | rfl | rfl | h
+  iterate 7 decide
+  simp [isIdentChar, Char.isAlphanum, rid_digits c s ch h]
 
 theorem style_noBs (c : RenderCtx) (j : Nat) : NoBs (",".intercalate (styleList c j)).toList := by
   unfold styleList
@@ -96,7 +104,7 @@ theorem styleAttrs_ok (c : RenderCtx) (hlab : ∀ j, NoBs (c.label j).toList) (j
     ∀ kv ∈ styleAttrs c j, IdOk kv.1.toList ∧ NoBs kv.2.toList := by
   have hl : NoBs (c.rid j ++ ": " ++ c.label j).toList := by
     simp only [String.toList_append]
-    refine noBs_append (noBs_append (noBs_of_idChars (rid_idOk c j).2) ?_) (hlab j)
+    refine noBs_append (noBs_append (noBs_of_idChars (rid_idOk c j).2.1) ?_) (hlab j)
     unfold NoBs; decide
   have hbase : ∀ kv ∈ [("shape", "box"), ("color", "red"), ("penwidth", "2"), ("penwidth", "0.5")],
       IdOk (kv : String × String).1.toList ∧ NoBs kv.2.toList := by
